@@ -66,8 +66,12 @@ def impl_iterfit(case, x=None, y=None, iv=None, use_none=False):
     up = None if case['upper'] is None else core.b2f(case['upper'])
     try:
         with np.errstate(all='ignore'):
-            sset, outmask = iterfit(x.copy(), y.copy(), invvar=None if use_none else iv.copy(), lower=lo, upper=up,
-                                    maxiter=case['maxiter'], **kw)
+            if case.get('positional') and lo is not None and up is not None and not use_none:
+                # documented signature iterfit(xdata, ydata, invvar=None, upper=5, lower=5, ...): the positional call is the same call
+                sset, outmask = iterfit(x.copy(), y.copy(), iv.copy(), up, lo, maxiter=case['maxiter'], **kw)
+            else:
+                sset, outmask = iterfit(x.copy(), y.copy(), invvar=None if use_none else iv.copy(), lower=lo, upper=up,
+                                        maxiter=case['maxiter'], **kw)
         return {'ok': {'bk': fb(sset.breakpoints), 'bkmask': [bool(v) for v in np.atleast_1d(sset.mask)],
                        'coeff': [float(v) for v in np.atleast_1d(sset.coeff)], 'outmask': [bool(v) for v in np.atleast_1d(outmask)]}}, sset
     except Exception as e:
@@ -212,11 +216,12 @@ def gen_case(rng, n=None, small=False):
     else:
         m = rng.randrange(2, max(3, min(7, ngood // (k + 1) + 2)))
         opt = ('bkpt', fb(sorted([gx[0], gx[-1]] + [gx[0] + gspan * rng.random() for _ in range(m - 2)])))
-    lim = lambda: rng.choice([5.0, 5.0, 3.0, 2.5, 10.0, None])
+    # (a limit of exactly 0 is a limit: the envelope fit rejects everything on one side of the curve)
+    lim = lambda: rng.choice([5.0, 5.0, 3.0, 2.5, 10.0, None, 0.0] if rng.random() < 0.25 else [5.0, 5.0, 3.0, 2.5, 10.0, None])
     return {'stream': 'iterfit', 'nord': k, 'x': fb(x), 'y': fb(y), 'iv': fb(iv), 'opt': list(opt),
             'lower': None if (l := lim()) is None else core.f2b(l), 'upper': None if (u_ := lim()) is None else core.f2b(u_),
             'maxiter': rng.choice([0, 1, 2, 3, 10, 10, 20]), 'order': order, 'ties': bool(len(set(x.tolist())) < n),
-            'outliers': outl, 'nbad': nbad, 'gap': gap, 'fscale': fscale}
+            'outliers': outl, 'nbad': nbad, 'gap': gap, 'fscale': fscale, 'positional': rng.random() < 0.3}
 
 
 # ---------------------------------------------------------------- checking one case
